@@ -2047,6 +2047,16 @@ def h_u64(s, a):
         v = z3.BitVec('u%d' % i, 64); s.symvars[('u', i)] = v
     return v
 
+def h_pick(s, a):
+    """continue with one feasible value of a symbolic u64 (a witness from the solver), recorded as a choice so that
+    re-executions of the same path pick the same value"""
+    v = a[0]
+    if not is_sym(v): return v
+    bv = to_bv(v, 64)
+    val = s.choice(lambda: [s.model_value(bv)])
+    s.add_constraint(bv == z3.BitVecVal(val, 64))
+    return val
+
 def h_assume(s, a):
     c = a[0]
     if is_sym(c):
@@ -2160,7 +2170,7 @@ def h_checkpoint(s, a):
         os.waitpid(pid, 0)
     os._exit(0)
 
-HOOKS = {'@verif_f64': h_f64, '@verif_u64': h_u64, '@verif_assume': h_assume, '@verif_assert': h_assert, '@verif_cover': h_cover,
+HOOKS = {'@verif_pick': h_pick, '@verif_f64': h_f64, '@verif_u64': h_u64, '@verif_assume': h_assume, '@verif_assert': h_assert, '@verif_cover': h_cover,
          '@verif_observe_u64': h_obs_u64, '@verif_observe_f64': h_obs_f64, '@verif_observe_str': h_obs_str, '@verif_cfg': h_cfg,
          '@verif_checkpoint': h_checkpoint}
 
